@@ -445,9 +445,9 @@ func (c *MemConn) ReadStats() (reads int) {
 // the client (returns false) or the timeout expires (returns false).
 // pred is called with the connection's lock held: it must not call back.
 func (c *MemConn) WaitLines(timeout time.Duration, pred func(lines []string) bool) bool {
-	var deadline time.Time
+	var wd *Watchdog
 	if timeout > 0 {
-		deadline = time.Now().Add(timeout)
+		wd = NewWatchdog(timeout)
 	}
 	for {
 		c.mu.Lock()
@@ -458,10 +458,10 @@ func (c *MemConn) WaitLines(timeout time.Duration, pred func(lines []string) boo
 			return true
 		}
 		slice := DeadPollEvery
-		if timeout > 0 {
-			if rem := time.Until(deadline); rem <= 0 {
+		if wd != nil {
+			if wd.Expired() {
 				return false
-			} else if rem < slice {
+			} else if rem := wd.Remaining(); rem < slice && rem > 0 {
 				slice = rem
 			}
 		}
